@@ -67,6 +67,7 @@ pub fn main() {
         "frag-grid" => frag::grid(rest),
         "frag-trace" => frag::trace(rest),
         "parse" => milud::parse_main(rest),
+        "types" => milud::types_main(rest),
         x => {
             eprintln!("unknown driver {}", x);
             std::process::exit(2);
